@@ -158,7 +158,8 @@ After(s, k, els) ==
 (* data region; first = TRUE right after the header separator *)
 Data(s, k, els, first) ==
     LET c == At(s, k) IN
-    IF c = -1 \/ c = NL \/ c = 59 THEN
+    IF c = NL /\ k < Len(s) THEN Unspec("NL-followed-by-more")
+    ELSE IF c = -1 \/ c = NL \/ c = 59 THEN
         (IF first THEN After(s, k, els) ELSE M("comma-trailing"))
     ELSE IF c = 44 THEN M(IF first THEN "comma-leading" ELSE "comma-doubled")
     ELSE LET d == Datum(s, k) IN
